@@ -1,9 +1,9 @@
 //! target: guard/src/rules/eval.rs
-//! requires: eval.rs
+//! requires: eval_common.rs
 // K8: the clause evaluator proper (eval_guard_access_clause: unary and binary paths, all/some
 // fold, SKIP on empty selections, prefix negation) with the stub context of eval.rs.
 #![allow(unused_imports, dead_code, unused_variables)]
-use super::verif_eval::*;
+use super::verif_eval_common::*;
 use super::*;
 use crate::rules::path_value::{Location, MapValue, Path};
 use std::mem::forget;
